@@ -8,3 +8,9 @@ register_record("HttpRequest", {"method": "bytes", "uri": "bytes", "params": "an
                 "dissect.cobaltstrike.c2")
 register_record("HttpResponse", {"status": "int", "headers": "any", "reason": "bytes", "body": "bytes",
                                  "request": "opt[record[HttpRequest]]"}, "dissect.cobaltstrike.c2")
+
+register_record("EncryptedPacket", {"ciphertext": "bytes", "signature": "bytes"}, "dissect.cobaltstrike.c2")
+register_record("C2Data", {"output": "opt[bytes]", "metadata": "opt[bytes]", "id": "opt[bytes]"}, "dissect.cobaltstrike.c2")
+register_record("ServerC2Data", {"output": "opt[bytes]", "metadata": "opt[bytes]", "id": "opt[bytes]"}, "dissect.cobaltstrike.c2")
+register_record("ClientC2Data", {"output": "opt[bytes]", "metadata": "opt[bytes]", "id": "opt[bytes]"}, "dissect.cobaltstrike.c2")
+register_record("BeaconKeys", {"aes_key": "opt[bytes]", "hmac_key": "opt[bytes]", "iv": "bytes"}, "dissect.cobaltstrike.c2")
